@@ -410,6 +410,15 @@ class Report:
         self.cov['known_findings_listed_not_reproduced_this_run'] = [
             kf.get('key') for kf in self.known
             if kf.get('status') != 'fixed' and kf.get('key') not in {k for k, _ in self.known_hits}]
+        # typed keys of the evidence schema: a check that stores something else under one of these names
+        # must not produce an invalid evidence file — the value is moved to `<key>_detail`
+        typed = {'evaluations': int, 'distinct_nontrivial': int, 'rule': str, 'samples': list, 'states': int,
+                 'transitions': int, 'traces_validated_against_impl': int, 'obligations': int, 'discharged': int,
+                 'checker_cmd': str, 'trusted_base': list, 'programs': int, 'disagreements_checked': int,
+                 'explanation': str, 'exhaustive': bool}
+        for k, t in typed.items():
+            if k in self.cov and (not isinstance(self.cov[k], t) or (t is int and isinstance(self.cov[k], bool))):
+                self.cov[k + '_detail'] = self.cov.pop(k)
         ev = {'property_id': self.pid, 'tier': self.tier, 'seed': self.seed, 'level': self.level,
               'coverage': self.cov, 'assumptions': self.assumptions, 'wall_s': round(wall, 2),
               'violations': len(self.violations)}
